@@ -273,6 +273,9 @@ func journal(prop, name string, c any) {
 	_ = os.WriteFile(out+".journal", j, 0o644)
 }
 
+// JournalCase records the case about to run, so that the driver can turn a dying process into a violation with a replay.
+func JournalCase(prop, name string, c any) { journal(prop, name, c) }
+
 var replayers = map[string]func(json.RawMessage) error{}
 
 // Run executes one sub-check under rapid with the tier's case count and the
